@@ -440,18 +440,14 @@ htp_status_t htp_connp_RES_BODY_CHUNKED_LENGTH(htp_connp_t *connp) {
             }
             // empty chunk length line, lets try to continue
             if (connp->out_chunked_length == -1004) {
-                connp->out_current_consume_offset = connp->out_current_read_offset;
+                htp_connp_res_clear_buffer(connp);
                 continue;
             }
             if (connp->out_chunked_length < 0) {
-                // reset out_current_read_offset so htp_connp_RES_BODY_IDENTITY_STREAM_CLOSE
-                // doesn't miss the first bytes
-
-                if (len > (size_t)connp->out_current_read_offset) {
-                    connp->out_current_read_offset = 0;
-                } else {
-                    connp->out_current_read_offset -= len;
-                }
+                // Not a chunk length after all: the rest of the stream is an identity
+                // body and the line just read is its beginning. Part of the line may
+                // have arrived with earlier chunks, so it cannot be un-read; deliver it
+                // from here (the delivery counts the bytes, take the count above back).
 
                 connp->out_state = htp_connp_RES_BODY_IDENTITY_STREAM_CLOSE;
                 connp->out_tx->response_transfer_coding = HTP_CODING_IDENTITY;
@@ -459,7 +455,11 @@ htp_status_t htp_connp_RES_BODY_CHUNKED_LENGTH(htp_connp_t *connp) {
                 htp_log(connp, HTP_LOG_MARK, HTP_LOG_ERROR, 0,
                         "Response chunk encoding: Invalid chunk length: %"PRId64"",
                         connp->out_chunked_length);
-                return HTP_OK;
+
+                connp->out_tx->response_message_len -= len;
+                htp_status_t rc = htp_tx_res_process_body_data_ex(connp->out_tx, data, len);
+                htp_connp_res_clear_buffer(connp);
+                return rc;
             }
             htp_connp_res_clear_buffer(connp);
 
